@@ -66,7 +66,28 @@ def budget(tier):
     return 8000 if tier == "quick" else 400000
 
 
+def gen_longlived(seed):
+    """One long-lived server process (a Repo held by a DictBackend) serves
+    pushes one after another while *another process* deletes branches and
+    runs maintenance on the same directory in between."""
+    rng = random.Random(derive_seed(seed, "c06ll"))
+    steps = []
+    for _ in range(rng.randint(2, 5)):
+        steps.append({"op": "push", "what": rng.choice(["topic", "topic",
+                                                        "topic2", "delete"])})
+        if rng.random() < 0.8:
+            steps.append({"op": "other", "do": rng.sample(
+                ["delete_topic", "gc_now", "gc_now", "repack", "pack_loose",
+                 "pack_refs", "gc_default"], rng.randint(1, 3))})
+    return {"kind": "longlived", "seed": seed, "steps": steps,
+            "layout": rng.choice(["loose", "packed"]),
+            "warm": rng.random() < 0.5,
+            "sched": {"policy": "sequential"}}
+
+
 def gen_plan(seed, tier):
+    if seed % 20 == 13:
+        return gen_longlived(seed)
     rng = random.Random(derive_seed(seed, "c06plan"))
     pol = rng.choice(["uniform", "burst", "burst", "targeted", "pct"])
     sched = {"policy": pol}
@@ -247,7 +268,180 @@ def raw_push(ep, server_path, spec, cmd_values, pack_bytes):
     return status, unpack, adv
 
 
+def run_longlived(plan):
+    from dulwich.gc import garbage_collect
+    from dulwich.object_format import DEFAULT_OBJECT_FORMAT
+    from dulwich.pack import write_pack_objects
+    from dulwich.protocol import ReceivableProtocol, pkt_line
+    from dulwich.repo import Repo
+    from dulwich.server import DictBackend, ReceivePackHandler
+    sim = Sim(seed=plan["seed"], sched={"policy": "sequential"},
+              clock={"step_lo_ns": 1000, "step_hi_ns": 100000},
+              step_cap=2_000_000)
+    viols = []
+    stats = {}
+    z = b"0" * 40
+
+    def viol(sig, detail):
+        viols.append({"sig": "C06/" + sig, "detail": str(detail)[:600]})
+
+    with util.Sandbox() as root:
+        fs = simfs.FS(root, sim)
+        simfs.activate(fs)
+        rng = random.Random(derive_seed(plan["seed"], "c06llb"))
+        u = H.Universe()
+        base = H.gen_history(u, rng, 2, salt=b"LB", tags=False)
+        top0 = base["commits"][-1]
+        chains = {}
+        for nm, salt in (("topic", b"LT"), ("topic2", b"LU")):
+            h = H.gen_history(u, rng, 2, salt=salt, tags=False)
+            c1 = u.commit(h["trees_of"][h["commits"][0]], [top0],
+                          1700400000, b"one " + salt + b"\n")
+            c2 = u.commit(h["trees_of"][h["commits"][-1]], [c1],
+                          1700400100, b"two " + salt + b"\n")
+            chains[nm] = c2
+        sp = os.path.join(root, "server")
+        r0 = util.init_repo(sp, bare=True)
+        u.add_to_store(r0.object_store, sorted(u.closure([top0])))
+        if plan["layout"] == "packed":
+            r0.object_store.pack_loose_objects()
+        r0.refs[b"refs/heads/main"] = top0
+        r0.refs.set_symbolic_ref(b"HEAD", b"refs/heads/main")
+        r0.close()
+
+        def body(a):
+            server = Repo(sp)          # lives as long as the run
+            backend = DictBackend({b"/": server})
+            try:
+                for si, st in enumerate(plan["steps"]):
+                    if st["op"] == "other":
+                        o = Repo(sp)   # the other process
+                        try:
+                            for d in st["do"]:
+                                try:
+                                    if d == "delete_topic":
+                                        for n in (b"refs/heads/topic",
+                                                  b"refs/heads/topic2"):
+                                            o.refs.remove_if_equals(n, None)
+                                    elif d == "gc_now":
+                                        garbage_collect(o, grace_period=None)
+                                    elif d == "gc_default":
+                                        garbage_collect(o)
+                                    elif d == "repack":
+                                        o.object_store.repack()
+                                    elif d == "pack_loose":
+                                        o.object_store.pack_loose_objects()
+                                    elif d == "pack_refs":
+                                        o.refs.pack_refs(all=True)
+                                    stats["probe:other_process_between_"
+                                          "pushes"] = 1
+                                except Exception as e:  # noqa: BLE001
+                                    stats["other_step_failed:" +
+                                          type(e).__name__] = 1
+                        finally:
+                            o.close()
+                        continue
+                    fresh = Repo(sp)
+                    try:
+                        cur = {n: fresh.refs.read_ref(n) for n in
+                               (b"refs/heads/topic", b"refs/heads/topic2")}
+                    finally:
+                        fresh.close()
+                    if st["what"] == "delete":
+                        name = b"refs/heads/topic"
+                        if cur[name] is None:
+                            continue
+                        old, new, ids = cur[name], z, []
+                    else:
+                        name = b"refs/heads/" + st["what"].encode()
+                        new = chains[st["what"]]
+                        old = cur[name] or z
+                        if old == new:
+                            continue
+                        # the client sends what the advertisement does not
+                        # cover: everything above main
+                        ids = sorted(u.closure([new]) - u.closure([top0]))
+                    f = io.BytesIO()
+                    write_pack_objects(f.write,
+                                       [(u.shaobjs[i], None) for i in ids],
+                                       DEFAULT_OBJECT_FORMAT)
+                    req = pkt_line(old + b" " + new + b" " + name +
+                                   b"\0report-status delete-refs") + b"0000"
+                    inp = io.BytesIO(req + (f.getvalue() if ids else b""))
+                    outb = []
+                    proto = ReceivableProtocol(inp.read, outb.append,
+                                               rbufsize=4096)
+                    if plan["warm"]:
+                        list(server.object_store.packs)
+                    try:
+                        ReceivePackHandler(backend, [b"/"], proto).handle()
+                        reply = b"".join(outb)
+                    except Exception as e:  # noqa: BLE001
+                        # the server process died on this request: the
+                        # client sees a hang-up, nothing may have changed
+                        stats["server_died:" + type(e).__name__] = 1
+                        reply = None
+                    ok = reply is not None and (b"ok " + name) in reply
+                    stats["probe:push_through_long_lived_server"] = 1
+                    chk = Repo(sp)
+                    try:
+                        now = chk.refs.read_ref(name)
+                        want = None if new == z else new
+                        if ok and now != want:
+                            viol("ok-but-unchanged/longlived",
+                                 f"step {si}: {name!r} reported ok, holds "
+                                 f"{now!r} instead of {want!r}")
+                        if not ok and now != cur[name]:
+                            viol("ng-but-changed/longlived",
+                                 f"step {si}: {name!r} not reported ok, "
+                                 f"moved from {cur[name]!r} to {now!r}")
+                        for rn in sorted(chk.refs.allkeys()):
+                            try:
+                                v = chk.refs[rn]
+                            except KeyError:
+                                continue
+                            bad = [(w, i) for i in sorted(u.closure([v]))
+                                   for w in [u.intact_in(chk.object_store, i)]
+                                   if w] if v in u.objs else (
+                                [] if v in chk.object_store
+                                else [("missing", v)])
+                            if bad:
+                                viol("ref-names-missing-object/longlived",
+                                     f"step {si}: after the push of "
+                                     f"{name!r} (ok={ok}) {rn!r} -> {v!r}: "
+                                     f"{bad[:3]}")
+                                return
+                    finally:
+                        chk.close()
+            finally:
+                server.close()
+
+        act = sim.run_inline("main", body)
+        gc.collect()
+        simfs.deactivate()
+        if act.exc is not None:
+            viol(f"harness-or-unexpected-exception/{type(act.exc).__name__}",
+                 repr(act.exc)[:400])
+    seen = set()
+    out = []
+    for v in viols:
+        if v["sig"] not in seen:
+            seen.add(v["sig"])
+            out.append(v)
+    stats["sim_ns"] = sim.clock.advanced
+    stats["policy:sequential"] = 1
+    stats["kind:longlived"] = 1
+    return {"violations": out, "digest": sim.digest(),
+            "ihash": util.h8([plan["steps"], plan["layout"], plan["warm"]]),
+            "nontrivial": bool(stats.get(
+                "probe:other_process_between_pushes")),
+            "trace": None, "stats": stats, "events": sim.events,
+            "sample": {"plan": plan}}
+
+
 def run_plan(plan):
+    if plan.get("kind") == "longlived":
+        return run_longlived(plan)
     from dulwich.client import LocalGitClient
     from dulwich.errors import (GitProtocolError, HangupException,
                                 SendPackError)
@@ -637,6 +831,18 @@ def _chain_ok(v0, vend, ok_cmds, maybe):
 def shrink(plan):
     def cp():
         return json.loads(json.dumps(plan))
+    if plan.get("kind") == "longlived":
+        for i in range(len(plan["steps"]) - 1, -1, -1):
+            p = cp()
+            del p["steps"][i]
+            yield p
+        for i, st in enumerate(plan["steps"]):
+            if st["op"] == "other" and len(st["do"]) > 1:
+                for j in range(len(st["do"])):
+                    p = cp()
+                    del p["steps"][i]["do"][j]
+                    yield p
+        return
     if len(plan["pushers"]) > 1:
         for i in range(len(plan["pushers"])):
             p = cp()
